@@ -7,6 +7,7 @@ from typing import Dict, List, Optional, Set, Tuple
 from .. import cfg as cfgmod
 from ..anchors import RESOURCES, SIM, WORKERS, Sim
 from ..core import (
+    resolve_local,
     AnalysisError,
     Repo,
     call_name,
@@ -592,9 +593,22 @@ def r3_deallocate(ctx: Context, rule: str = "C04.R3") -> None:
     comp = fn.args.args[1].arg if len(fn.args.args) > 1 else None
     loops = [n for n in ast.walk(fn) if isinstance(n, ast.For) and isinstance(n.iter, ast.Subscript)
              and is_self_attr(n.iter.value, "_current_allocations")]
+    via_get = None
+    if not loops:
+        # the record fetched once: `rec = self._current_allocations.get(computation)` / `for r, q in rec`
+        for n in ast.walk(fn):
+            if isinstance(n, ast.For) and isinstance(n.iter, ast.Name):
+                rv = resolve_local(fn, n.iter)
+                if isinstance(rv, ast.Call) and isinstance(rv.func, ast.Attribute) and rv.func.attr == "get" and is_self_attr(rv.func.value, "_current_allocations") \
+                        and len(rv.args) == 1:
+                    loops.append(n)
+                    via_get = rv
     ctx.floor(rule, "loop over the recorded allocations", len(loops), 1)
     lp = loops[0]
-    ok_iter = isinstance(lp.iter.slice, ast.Name) and lp.iter.slice.id == comp
+    if via_get is not None:
+        ok_iter = isinstance(via_get.args[0], ast.Name) and via_get.args[0].id == comp
+    else:
+        ok_iter = isinstance(lp.iter.slice, ast.Name) and lp.iter.slice.id == comp
     tgt = lp.target
     ok_body = False
     if isinstance(tgt, ast.Tuple) and len(tgt.elts) == 2 and all(isinstance(e, ast.Name) for e in tgt.elts):
